@@ -490,6 +490,7 @@ class Expect:
         self.rest_classes = {}      # class of key holding a Rest -> rests
         self.odd_rests = []         # times of rests by a Rest in another key
         self.odd_rest_tags = set()
+        self.delta_only_rest_tags = set()
         self.rest_tags = set()
         self.group_id = None
         self.total = None    # expected elapsed time (None: not asserted)
@@ -568,7 +569,13 @@ def expect_timeline(case, start, info, groups):
                 ex.rests += 1
                 for c in me.rest_key_classes(e.keys):
                     ex.rest_classes[c] = ex.rest_classes.get(c, 0) + 1
-                # (a Rest-valued delta is written by the model's Pdur cut only)
+                if e.kind != 'silent' and e.keys.get('type') != 'rest' \
+                        and 'tag' in e.keys and {
+                            k for k, v in e.keys.items()
+                            if k != 'scale' and me.is_rest_value(v)} == {'delta'}:
+                    # a rest only by the Rest object in its delta
+                    ex.delta_only_rest_tags.add(e.keys['tag'])
+                # (delta apart: a Pdur cut rewrites it, keeping the Rest)
                 if e.kind != 'silent' and e.keys.get('type') != 'rest' \
                         and 'dur-or-pitch-source' not in me.rest_key_classes(
                             {k: v for k, v in e.keys.items() if k != 'delta'}):
